@@ -109,7 +109,15 @@ func Run(ctx *core.Ctx) {
 		"further names (Proxy-Authorization, Authorization, the standard hop-by-hop set, managed and custom names; token lists in every spelling, " +
 		"nominated fields present with several values); before that, sequentially, HISTORY cases: a request or an origin response nominates names " +
 		"in Connection and later requests on the same connection / other connections / inside intercepted tunnels / through the other listeners of " +
-		"the process carry those names end-to-end (whole history compared with Model.ReqSeq.runProcess); a request is non-trivial when it has a body, a repeated field, or a hop-by-hop/managed field; " +
+		"the process carry those names end-to-end (whole history compared with Model.ReqSeq.runProcess); then REFUSAL cases: on one keep-alive connection " +
+		"requests the proxy answers itself (407 no/wrong credentials, 403 deny-domains / localhost, 400 Via loop; direct and inside intercepted tunnels) " +
+		"that carry bodies (Content-Length / chunked / trailers, 1 B-70 KB, token bytes, bodies spelling out complete requests; every kind x body form x " +
+		"step-by-step / pipelined, then random sequences) precede ordinary requests: the hops must receive exactly the client's forwarded requests, in order " +
+		"(bytes also read by Model.C01.serveConn = ReqConn.serve with the pipeline as decision function); then CROSS-TALK cases: 16 keep-alive clients at the " +
+		"same time against one instance per configuration (direct, upstream, MITM), bursts of 1-8 pipelined requests, every client with its own Via chain " +
+		"(1-6 elements, comments, 1-3 lines), X-Forwarded-For/-Host/-Url, custom and nominated fields, path, query and body built around a marker of its own: " +
+		"each request judged against the model alone and scanned for any other client's marker; " +
+		"a request is non-trivial when it has a body, a repeated field, or a hop-by-hop/managed field; " +
 		"distinct = distinct (configuration, request bytes)")
 	pool := &envPool{envs: map[envKey]*env{}, ctx: ctx}
 	defer pool.closeAll()
@@ -131,6 +139,24 @@ func Run(ctx *core.Ctx) {
 		// the recorded cases or the histories already failed: what this process forwards depends on what it handled
 		// before (or the pipeline is broken outright). The verdict is decided, and the concurrent part below would run
 		// against a process whose state is already known to be corrupted (it may not even survive it)
+		return
+	}
+	// REFUSAL cases, one after the other: requests the proxy answers itself (407 / 403 / 400) that carry bodies precede
+	// ordinary requests on one connection; the hops must receive exactly the requests the client sent (refuse.go)
+	runRefusals(ctx, pool)
+	if ctx.NumFindings() > 0 {
+		return
+	}
+	// CROSS-TALK cases: many keep-alive clients with material of their own hammer one instance per configuration at
+	// the same time (cross.go)
+	for _, mode := range []string{"direct", "upstream", "mitm"} {
+		cc := &crossCase{Kind: "cross", Mode: mode, Clients: 16, PerClient: ctx.N(150, 600), GenSeed: ctx.Rng.Sub().U64()}
+		if mode == "direct" {
+			ctx.Sample(cc)
+		}
+		runCross(ctx, cc)
+	}
+	if ctx.NumFindings() > 0 {
 		return
 	}
 	nConn := ctx.N(2500, 40000)
@@ -187,6 +213,12 @@ func replayWith(ctx *core.Ctx, pool *envPool, raw json.RawMessage) {
 	switch k.Kind {
 	case "history":
 		replayHistory(ctx, pool, raw)
+		return
+	case "refuse":
+		replayRefuse(ctx, pool, raw)
+		return
+	case "cross":
+		replayCross(ctx, raw)
 		return
 	case "one":
 		var o oneReq
